@@ -403,6 +403,8 @@ def build_acc(a):
         return lena.flow.StoreFilled(yield_as_a_group=False)
     if a == "cnt":
         return CountFills()
+    if a in WRAPPED_ACCS:
+        return build_wrapped_acc(a)
     raise ValueError(a)
 
 
@@ -501,6 +503,154 @@ def project2(v):
     return flowlib.project(v)
 
 
+# ---- values with the content of context.variable (FillSem.tla: vc)
+NO_VC = {"name": "", "type": "", "compose": [], "kept": []}
+
+
+def project_vc(context):
+    """context.variable -> {name, type, compose, kept} of FillSem.tla (NoVC without the key)."""
+    var = context.get("variable") if isinstance(context, dict) else None
+    if var is None:
+        return dict(NO_VC)
+    if not isinstance(var, dict):
+        return {"name": "?" + repr(var), "type": "", "compose": [], "kept": []}
+    kept = sorted(({"t": str(k), "n": str(v.get("name", ""))} for k, v in var.items() if isinstance(v, dict)),
+                  key=lambda x: (x["t"], x["n"]))
+    comp = var.get("compose", [])
+    return {"name": str(var.get("name", "")), "type": str(var.get("type", "")),
+            "compose": [str(x) for x in comp] if isinstance(comp, (list, tuple)) else ["?" + repr(comp)], "kept": kept}
+
+
+def project3(v):
+    """project2 plus the content of context.variable."""
+    from . import flowlib
+    res = project2(v)
+    res["vc"] = project_vc(v[1]) if flowlib.has_ctx(v) else dict(NO_VC)
+    return res
+
+
+def norm_spec_val3(v):
+    vc = v.get("vc", NO_VC)
+    return {"d": v["d"], "c": sorted(v["c"]), "h": v["h"],
+            "vc": {"name": vc["name"], "type": vc["type"], "compose": list(vc["compose"]),
+                   "kept": sorted(({"t": k["t"], "n": k["n"]} for k in vc["kept"]), key=lambda x: (x["t"], x["n"]))}}
+
+
+# ---- variables (FillSem.tla TVar): getters by name
+GETTERS = {"dbl": lambda d: d * 2, "inc": lambda d: d + 1, "add10": lambda d: d + 10, "id": lambda d: d}
+
+
+def build_variable(descs):
+    """TVar(<<x>>) -> Variable(x.n, getter, type=x.ty); TVar(<<x1, .., xk>>) -> Compose(x1, .., xk)."""
+    import lena.variables
+    vs = [lena.variables.Variable(x["n"], GETTERS[x["g"]], **({"type": x["ty"]} if x["ty"] else {})) for x in descs]
+    return vs[0] if len(vs) == 1 else lena.variables.Compose(*vs)
+
+
+# ---- elements with several conflicting interfaces, to be used through an explicit adapter
+class Amb(object):
+    """__call__ (or the method m) transforms a value; the other interfaces of the element mean something else:
+    run yields nothing, fill_into fills the value unchanged, fill / compute / request count."""
+
+    def __init__(self, f, via):
+        from . import flowlib
+        self._f, self._via, self.n = flowlib._map_callable(f), via, 0
+
+    def __call__(self, v):
+        return self._f(v) if self._via == "call" else v
+
+    def m(self, v):
+        return self._f(v) if self._via == "m" else v
+
+    def run(self, flow):
+        for _ in flow:
+            pass
+        return iter(())
+
+    def fill_into(self, element, v):
+        element.fill(v)
+
+    def fill(self, v):
+        self.n += 1
+
+    def compute(self):
+        yield self.n
+
+    def request(self):
+        yield self.n
+
+
+def build_wmap(st):
+    """WMap(f, "call") -> Call(Amb(f)); WMap(f, "m") -> Call(Amb(f), call="m")."""
+    import lena.core
+    if st["w"] == "call":
+        return lena.core.Call(Amb(st["f"], "call"))
+    return lena.core.Call(Amb(st["f"], st["w"]), call=st["w"])
+
+
+class AmbAcc(object):
+    """Counts its fills; it also has a run method (passes the values on), is callable, has fill_into and request."""
+
+    def __init__(self):
+        self.n = 0
+
+    def fill(self, v):
+        self.n += 1
+
+    def compute(self):
+        yield self.n
+
+    def run(self, flow):
+        for v in flow:
+            yield v
+
+    def __call__(self, v):
+        return v
+
+    def fill_into(self, element, v):
+        element.fill(v)
+
+    def request(self):
+        yield -1
+
+    def m(self, *args):
+        return iter(())
+
+
+class NamedAcc(AmbAcc):
+    """Counts in put / take; fill and compute mean something else."""
+
+    def put(self, v):
+        self.n += 1
+
+    def take(self):
+        yield self.n
+
+    def fill(self, v):
+        self.n += 100
+
+    def compute(self):
+        yield -1
+
+
+WRAPPED_ACCS = ("fc_sum", "fc_count", "fc_amb", "fc_named")
+
+
+def build_wrapped_acc(a):
+    import lena.core
+    import lena.flow
+    import lena.math
+    if a == "fc_sum":
+        return lena.core.FillCompute(lena.math.Sum())
+    if a == "fc_count":
+        return lena.core.FillCompute(lena.flow.Count())
+    if a == "fc_amb":
+        return lena.core.FillCompute(AmbAcc())
+    if a == "fc_named":
+        return lena.core.FillCompute(NamedAcc(), fill="put", compute="take")
+    raise ValueError(a)
+
+
 def build_stage2(st, fk, variant=0):
     """Real element for a stage of the extended vocabulary (context-dependent selectors), else flowlib's.
 
@@ -509,6 +659,10 @@ def build_stage2(st, fk, variant=0):
     from . import flowlib
     if st["t"] == "sfilter":
         return lena.flow.Filter(composed_selector(st["s"]))
+    if st["t"] == "tvar":
+        return build_variable(st["vars"])
+    if st["t"] == "wmap":
+        return build_wmap(st)
     if st["t"] == "nmap":
         return none_map(st["f"])
     if st["t"] == "runifdup":
@@ -572,18 +726,37 @@ def siblings(variant=0):
     return a, b
 
 
-STATELESS = ("map", "filter", "slice", "runif", "cfilter", "crunif", "runifdup", "runifseq", "sfilter", "nmap")
+STATELESS = ("map", "filter", "slice", "runif", "cfilter", "crunif", "runifdup", "runifseq", "sfilter", "nmap", "wmap")
+
+
+def recomputable(ch):
+    """FillSem.tla Recomputable: compute() may be called again (no typed variable changes stored values in place)."""
+    return all(st["t"] in STATELESS for st in ch["post"]) and not any(st["t"] == "tvar" for st in ch["pre"] + ch["post"])
 
 
 class SecondComputeDiffers(Exception):
     pass
 
 
+def _collect(results, snap, keep=None):
+    """The results as a list; snap (if given) receives the projection of every result at the moment it is yielded."""
+    out = []
+    for v in results:
+        if keep is not None and not keep(v):
+            continue
+        if snap is not None:
+            snap.append(project3(v))
+        out.append(v)
+    return out
+
+
 def drive_chain(ch, n_values, fk, drv, bs=None, acc=None, copy_buf=True, form="tuple", place="alone", variant=0,
-                values=None):
+                values=None, snap=None):
     """Run one driver on fresh elements; returns the list of real results of the chain (exceptions propagate).
 
-    place != "alone": the chain is a branch of a Split next to sibling branches; their results are removed."""
+    place != "alone": the chain is a branch of a Split next to sibling branches; their results are removed.
+    snap: a list that receives the projection (project3) of every result at the moment it is yielded - the
+    returned list is looked at when the driver has finished."""
     import lena.core
     pre, a, post = build_chain(ch, fk, acc, variant)
     els = pre + [a] + post
@@ -596,14 +769,14 @@ def drive_chain(ch, n_values, fk, drv, bs=None, acc=None, copy_buf=True, form="t
                 s.fill(v)
             except lena.core.LenaStopFill:
                 pass
-        first = list(s.compute())
-        if all(st["t"] in STATELESS for st in ch["post"]):
+        first = _collect(s.compute(), snap)
+        if recomputable(ch):
             second = list(s.compute())
             if repr(second) != repr(first):
                 raise SecondComputeDiffers(repr((first, second)))
         return first
     if drv == "run":
-        return list(lena.core.Sequence(*els).run(flow))
+        return _collect(lena.core.Sequence(*els).run(flow), snap)
     if drv == "split":
         if form == "tuple":
             branch = tuple(els)
@@ -623,7 +796,7 @@ def drive_chain(ch, n_values, fk, drv, bs=None, acc=None, copy_buf=True, form="t
             sa, sb = siblings(n_values)
             branches = {"first": [branch, sa, sb], "middle": [sa, branch, sb], "last": [sa, sb, branch]}[place]
         s = lena.core.Split(branches, bufsize=None if bs == NONE else bs, copy_buf=copy_buf)
-        return [v for v in s.run(flow) if not is_sibling_result(v)]
+        return _collect(s.run(flow), snap, keep=lambda v: not is_sibling_result(v))
     if drv == "fill_compute_seq":
         s = lena.core.FillComputeSeq(*els)
         for v in flow:
@@ -631,7 +804,7 @@ def drive_chain(ch, n_values, fk, drv, bs=None, acc=None, copy_buf=True, form="t
                 s.fill(v)
             except lena.core.LenaStopFill:
                 break
-        return list(s.compute())
+        return _collect(s.compute(), snap)
     if drv == "fill_seq":
         s = lena.core.FillSeq(*(pre + [a]))
         for v in flow:
@@ -639,7 +812,7 @@ def drive_chain(ch, n_values, fk, drv, bs=None, acc=None, copy_buf=True, form="t
                 s.fill(v)
             except lena.core.LenaStopFill:
                 break
-        return list(lena.core.Sequence(*post).run(a.compute()))
+        return _collect(lena.core.Sequence(*post).run(a.compute()), snap)
     raise ValueError(drv)
 
 
@@ -664,6 +837,11 @@ def chain_key(ch):
             return "runif(%s,[%s])" % (st["p"], "+".join(one(x) for x in st["inner"]))
         if t in ("lagk", "lastk"):
             return "%s%d" % (t, st["k"])
+        if t == "tvar":
+            names = ["%s:%s" % (x["n"], x["ty"] or "-") for x in st["vars"]]
+            return "var(%s)" % names[0] if len(names) == 1 else "compose(%s)" % ",".join(names)
+        if t == "wmap":
+            return "Call(amb-%s%s)" % (st["f"], "" if st["w"] == "call" else ",call=" + st["w"])
         if t == "cfilter":
             return "filter-ctx-%s-%s" % (st["k"], st["form"])
         if t == "crunif":
